@@ -147,6 +147,7 @@ fn body(seed: u64, turns: usize, policy: u64, order: u64) {
     }
     let eq = clone == g;
     say(&format!("STAGE eq {}", eq));
+    release_ways(&g);
     if order % 2 == 0 {
         drop(clone);
         say("STAGE drop_clone");
@@ -179,6 +180,119 @@ fn body(seed: u64, turns: usize, policy: u64, order: u64) {
         say("STAGE drop_clone");
     }
     say(&format!("DONE history={}", hist));
+}
+
+/// The final state once more with history nodes of its own (same content; built with the public
+/// constructors), so that it is the sole owner of a long history.
+fn deep_copy(g: &GameState) -> Option<GameState> {
+    use arimaa_engine_step::{List, Phase, PieceBoard, PlayPhase, Zobrist};
+    let pp = g.as_play_phase()?;
+    if pp.step() != 0 {
+        return None;
+    }
+    let mut items: Vec<Zobrist> = pp.hash_history().iter().cloned().collect();
+    items.reverse();
+    let mut list = List::new();
+    for z in items {
+        list = list.append(z);
+    }
+    let pbs = g.piece_board();
+    let side = g.is_p1_turn_to_move();
+    let h = Zobrist::from_piece_board(pbs, side, 0);
+    let pb = PieceBoard::new(pbs.p1_pieces, pbs.elephants, pbs.camels, pbs.horses, pbs.dogs, pbs.cats, pbs.rabbits);
+    let phase = Phase::PlayPhase(PlayPhase::new(h, list, vec![], pp.push_pull_state(), pp.piece_trapped_this_turn()));
+    Some(GameState::new(side, g.move_number(), phase, pb, h))
+}
+
+/// Every way in which client code lets go of a state that is the sole owner of a long history: not only
+/// `drop`, but also overwriting it in place (`clone_from`, assignment, `mem::replace`, `Option::take`),
+/// letting go of its parts (play phase, history list) and of containers that hold it.
+fn release_ways(g: &GameState) {
+    use arimaa_engine_step::List;
+    let short: GameState = START.parse().expect("start position");
+    let mk = || deep_copy(g);
+    if mk().is_none() {
+        say("STAGE release_ways skipped");
+        return;
+    }
+    {
+        let mut a = mk().unwrap();
+        a.clone_from(&short);
+        say("STAGE release overwritten_by_clone_from_short_game");
+        let _ = a.valid_actions();
+    }
+    {
+        let mut a = mk().unwrap();
+        let b = mk().unwrap();
+        a.clone_from(&b);
+        say("STAGE release overwritten_by_clone_from_long_game");
+        drop(b);
+        drop(a);
+        say("STAGE release both_dropped");
+    }
+    {
+        let mut a = mk().unwrap();
+        a.clone_from(g);
+        say("STAGE release overwritten_by_clone_from_the_game_itself");
+    }
+    {
+        let mut a = mk().unwrap();
+        let _ = a.valid_actions();
+        a = short.clone();
+        say("STAGE release overwritten_by_assignment");
+        let _ = a.valid_actions();
+    }
+    {
+        let mut a = mk().unwrap();
+        let old = std::mem::replace(&mut a, short.clone());
+        drop(old);
+        say("STAGE release mem_replace");
+    }
+    {
+        let a = mk().unwrap();
+        let mut phase = a.unwrap_play_phase().clone();
+        drop(a);
+        phase.clone_from(short.unwrap_play_phase());
+        say("STAGE release play_phase_overwritten_by_clone_from");
+    }
+    {
+        let a = mk().unwrap();
+        let phase = a.unwrap_play_phase().clone();
+        drop(a);
+        drop(phase);
+        say("STAGE release play_phase_dropped_last");
+    }
+    {
+        let a = mk().unwrap();
+        let mut list = a.unwrap_play_phase().hash_history().clone();
+        drop(a);
+        list.clone_from(&List::new());
+        say("STAGE release history_list_overwritten_by_clone_from");
+    }
+    {
+        let a = mk().unwrap();
+        let mut list = a.unwrap_play_phase().hash_history().clone();
+        drop(a);
+        let n = list.len();
+        list = list.append(*short.unwrap_play_phase().hash_history().head().expect("head"));
+        say(&format!("STAGE release history_list_extended {}", n));
+        drop(list);
+        say("STAGE release history_list_dropped_last");
+    }
+    {
+        let mut v = vec![mk().unwrap(), mk().unwrap()];
+        v.truncate(1);
+        v.clear();
+        let mut o = mk();
+        let _ = o.take();
+        let b: Box<dyn std::any::Any> = Box::new(mk().unwrap());
+        drop(b);
+        let arc = std::sync::Arc::new(mk().unwrap());
+        let arc2 = arc.clone();
+        drop(arc);
+        drop(arc2);
+        say("STAGE release containers");
+    }
 }
 
 /// Plays on (captures welcome) so that a capture discards the history while this state is its only owner.
